@@ -20,7 +20,7 @@ import itertools
 import logging
 import warnings
 
-from vlib.core import Acc
+from vlib.smallest import SmallestAcc as Acc
 
 KINDS = "PLSB"  # PoolDecorator, Logger, Standardiser, Buffer
 PLAIN = "PL"
@@ -339,7 +339,8 @@ def explore(acc, case, depth):
                     acc.violation(problems[0][0],
                                   "stack %r (top first) over the pool, history %r: %s"
                                   % (case["stack"], hist + [op], text),
-                                  dict(case, kind="history", hist=hist + [op]))
+                                  dict(case, kind="history", hist=hist + [op]),
+                                  size=(len(case["stack"]), len(hist) + 1))
                     continue
                 successors.append(hist + [op])
         frontier = successors
@@ -386,7 +387,7 @@ def shard_config(args):
         acc.outcome(("construct", "unknown" in fields))
         acc.count("logger-configurations")
         if problem:
-            acc.violation(problem[0], problem[1], dict(case, kind="construct"))
+            acc.violation(problem[0], problem[1], dict(case, kind="construct"), size=(1, 0))
         elif "unknown" not in fields:
             explore(acc, case, depth)
     return acc
@@ -418,7 +419,9 @@ def run(ctx):
     config_depth = 2 if ctx.quick else 3
     shards = [("stack", stack, depth) for stack in stacks()]
     shards += [("config", fields, config_depth) for fields in templates()]
+    ctx.acc = Acc()
     ctx.pmap(shard, shards)
+    ctx.acc.settle()  # per key, the shallowest stack and shortest history
     ctx.meta.update(
         rule="every stack of depth 0..3 over PoolDecorator/Logger/Standardiser()/Buffer x "
              "every operation history up to the depth bound (no pruning: a state is the "
